@@ -1,0 +1,67 @@
+//go:build verif
+// +build verif
+
+// Package verifair exposes the generated types of internal/aircraftlib to the
+// verification harness (property C19), which lives outside this module and therefore
+// cannot import an internal package.  Compiled only with the build tag "verif".
+package verifair
+
+import (
+	"reflect"
+
+	air "capnproto.org/go/capnp/v3/internal/aircraftlib"
+)
+
+// GenTypes maps a struct type ID to the Go type capnpc-go generated for it.
+var GenTypes = map[uint64]reflect.Type{
+	air.Zdate_TypeID:                          reflect.TypeOf(air.Zdate{}),
+	air.Zdata_TypeID:                          reflect.TypeOf(air.Zdata{}),
+	air.PlaneBase_TypeID:                      reflect.TypeOf(air.PlaneBase{}),
+	air.B737_TypeID:                           reflect.TypeOf(air.B737{}),
+	air.A320_TypeID:                           reflect.TypeOf(air.A320{}),
+	air.F16_TypeID:                            reflect.TypeOf(air.F16{}),
+	air.Regression_TypeID:                     reflect.TypeOf(air.Regression{}),
+	air.Aircraft_TypeID:                       reflect.TypeOf(air.Aircraft{}),
+	air.Z_TypeID:                              reflect.TypeOf(air.Z{}),
+	air.Counter_TypeID:                        reflect.TypeOf(air.Counter{}),
+	air.Bag_TypeID:                            reflect.TypeOf(air.Bag{}),
+	air.Zserver_TypeID:                        reflect.TypeOf(air.Zserver{}),
+	air.Zjob_TypeID:                           reflect.TypeOf(air.Zjob{}),
+	air.VerEmpty_TypeID:                       reflect.TypeOf(air.VerEmpty{}),
+	air.VerOneData_TypeID:                     reflect.TypeOf(air.VerOneData{}),
+	air.VerTwoData_TypeID:                     reflect.TypeOf(air.VerTwoData{}),
+	air.VerOnePtr_TypeID:                      reflect.TypeOf(air.VerOnePtr{}),
+	air.VerTwoPtr_TypeID:                      reflect.TypeOf(air.VerTwoPtr{}),
+	air.VerTwoDataTwoPtr_TypeID:               reflect.TypeOf(air.VerTwoDataTwoPtr{}),
+	air.HoldsVerEmptyList_TypeID:              reflect.TypeOf(air.HoldsVerEmptyList{}),
+	air.HoldsVerOneDataList_TypeID:            reflect.TypeOf(air.HoldsVerOneDataList{}),
+	air.HoldsVerTwoDataList_TypeID:            reflect.TypeOf(air.HoldsVerTwoDataList{}),
+	air.HoldsVerOnePtrList_TypeID:             reflect.TypeOf(air.HoldsVerOnePtrList{}),
+	air.HoldsVerTwoPtrList_TypeID:             reflect.TypeOf(air.HoldsVerTwoPtrList{}),
+	air.HoldsVerTwoTwoList_TypeID:             reflect.TypeOf(air.HoldsVerTwoTwoList{}),
+	air.HoldsVerTwoTwoPlus_TypeID:             reflect.TypeOf(air.HoldsVerTwoTwoPlus{}),
+	air.VerTwoTwoPlus_TypeID:                  reflect.TypeOf(air.VerTwoTwoPlus{}),
+	air.HoldsText_TypeID:                      reflect.TypeOf(air.HoldsText{}),
+	air.WrapEmpty_TypeID:                      reflect.TypeOf(air.WrapEmpty{}),
+	air.Wrap2x2_TypeID:                        reflect.TypeOf(air.Wrap2x2{}),
+	air.Wrap2x2plus_TypeID:                    reflect.TypeOf(air.Wrap2x2plus{}),
+	air.VoidUnion_TypeID:                      reflect.TypeOf(air.VoidUnion{}),
+	air.Nester1Capn_TypeID:                    reflect.TypeOf(air.Nester1Capn{}),
+	air.RWTestCapn_TypeID:                     reflect.TypeOf(air.RWTestCapn{}),
+	air.ListStructCapn_TypeID:                 reflect.TypeOf(air.ListStructCapn{}),
+	air.Echo_echo_Params_TypeID:               reflect.TypeOf(air.Echo_echo_Params{}),
+	air.Echo_echo_Results_TypeID:              reflect.TypeOf(air.Echo_echo_Results{}),
+	air.Hoth_TypeID:                           reflect.TypeOf(air.Hoth{}),
+	air.EchoBase_TypeID:                       reflect.TypeOf(air.EchoBase{}),
+	air.StackingRoot_TypeID:                   reflect.TypeOf(air.StackingRoot{}),
+	air.StackingA_TypeID:                      reflect.TypeOf(air.StackingA{}),
+	air.StackingB_TypeID:                      reflect.TypeOf(air.StackingB{}),
+	air.CallSequence_getNumber_Params_TypeID:  reflect.TypeOf(air.CallSequence_getNumber_Params{}),
+	air.CallSequence_getNumber_Results_TypeID: reflect.TypeOf(air.CallSequence_getNumber_Results{}),
+	air.Pipeliner_newPipeliner_Params_TypeID:  reflect.TypeOf(air.Pipeliner_newPipeliner_Params{}),
+	air.Pipeliner_newPipeliner_Results_TypeID: reflect.TypeOf(air.Pipeliner_newPipeliner_Results{}),
+	air.Defaults_TypeID:                       reflect.TypeOf(air.Defaults{}),
+	air.BenchmarkA_TypeID:                     reflect.TypeOf(air.BenchmarkA{}),
+	air.AllocBenchmark_TypeID:                 reflect.TypeOf(air.AllocBenchmark{}),
+	air.AllocBenchmark_Field_TypeID:           reflect.TypeOf(air.AllocBenchmark_Field{}),
+}
